@@ -32,7 +32,7 @@ import (
 	"verifharness/h"
 )
 
-const c15Timeout = 20 * time.Second
+const c15Timeout = 90 * time.Second
 // pipeBuf is what F_SETPIPE_SZ shrinks the closing-reader pipe to (probed at start-up)
 var pipeBuf = 65536
 
